@@ -78,7 +78,7 @@ def workload_candidates(scn):
             c = copy.deepcopy(scn)
             c["tasks"].pop()
             for p in c["procs"]:
-                p["plan"] = [op for op in p.get("plan", []) if not (len(op) > 1 and op[1] == last and op[0] in ("submit", "dup", "resubmit", "wait", "mutate"))]
+                p["plan"] = [op for op in p.get("plan", []) if not (len(op) > 1 and op[1] == last and op[0] in ("submit", "dup", "resubmit", "wait", "await-final", "mutate"))]
             c["jobfaults"] = [jf for jf in c.get("jobfaults", []) if jf.get("x") != last]
             out.append(c)
     # drop edges, tokens, failures
